@@ -518,6 +518,12 @@ theorem analysis_sound (p : Prog) (nIn : Nat) (W : World) (hW : W.ok nIn) (v : N
 example : (⟨2, [(0, 1, 1)], [0, 0], fun _ => 7⟩ : World).ok 2 := by
   refine ⟨rfl, ?_, ?_⟩ <;> simp
 
+/-- … and the store semantics can alter the caller's cells (the theorems are not true of every program): a write through an item of
+argument 0 changes cell 1 — which is also argument 1 — and the analysis rejects that program -/
+example : (runC [.write (.view 1 (.var 0))] 2 ⟨2, [(0, 1, 1)], [0, 1], fun _ => 7⟩ 0 (fun _ => 0) (fun _ x => x + 1)).store 1 = 8 := by
+  simp [runC, execListC, execC, initC, evalC, lookupC_map, targetsC, pick]
+example : neverWritesInputs ⟨"writes an item of its argument", 2, 1, false, [.write (.view 1 (.var 0))]⟩ = false := by decide
+
 example : (allCtors.map (·.name)).contains "Segmentation.__init__ (arms merged)" = true := by decide +kernel
 /-- the two constructor defects repaired in /repo are rejected by the check: writing an attribute of an item of an argument
 (`ImageLibraryEntryDescriptors`), and writing through a variable that may still be the argument (`Segmentation`) -/
